@@ -87,7 +87,7 @@ fn run(args: &[String]) -> i32 {
                 "C11" => c11check(tier),
                 "C12" => { let mut rep = Report::new("C12", tier, "fault_enumeration"); rep.rule = "histories on SQLite (application message, proposal, commit, commit with rollback + relay replacement, own create_message / self_update / merge_pending_commit, process + accept welcome); for every API call and every storage tick k of it a child process replays the earlier calls, runs the call and dies by abort() at tick k; the parent reopens the file, loads every group, checks the relay set is the old or the new one, re-offers the interrupted call and all later ones and compares with the uninterrupted run; distinct = distinct (history, call, tick label, k)".into(); crashx::check_c12(&mut rep, tier != "quick"); rep.finish() }
                 "C19" => { let mut rep = Report::new("C19", tier, "model_checking"); rep.rule = "for every program set (2..3 threads, 1..3 single storage calls each, over three colliding alphabets: groups/relays/secrets, snapshots/MLS state, messages/dedup) on each backend: depth-first over every schedule of the controlled scheduler (schedule points = every lock acquisition of the backend), one real execution per schedule; states = program sets, transitions = scheduling decisions, evaluations = schedules; distinct = program sets with more than one observable outcome".into(); c19::check_c19(&mut rep, tier != "quick"); rep.finish() }
-                "C13" => { let mut rep = Report::new("C13", tier, "model_checking"); rep.rule = "A: every sequence of constructor calls (5 constructors x 2 paths, depth 2 quick / 3 thorough) from 6 initial file states against a reference model of the documented rules, with at-rest, keyring and mode checks after every call; C: 2..3 threads calling constructors on one path under the controlled scheduler, every schedule up to a preemption bound; B: a scripted history with planted canaries on an encrypted database (messages, a 32/57 KB message (NIP-44 caps a payload at 64 KB), commit race with rollback, own commit), every file of the database and temp directories scanned for 16+ needles after every call, at every storage tick inside every call, and after a process death at every storage tick; states = sequences + configurations + calls, evaluations = constructor calls + schedules + scans; distinct = distinct (constructor, file state, keyring state) cells and crash points".into(); c13::matrix(&mut rep, if tier == "quick" { 2 } else { 3 }, 0o022); for um in [0o007u32, 0o027, 0o077, 0o000] { c13::matrix(&mut rep, if tier == "quick" && um != 0o007 { 1 } else { 2 }, um); } c13::concurrent_opens(&mut rep, tier != "quick"); c13::at_rest(&mut rep, tier != "quick"); rep.finish() }
+                "C13" => { let mut rep = Report::new("C13", tier, "model_checking"); rep.rule = "A: every sequence of constructor calls (5 constructors x 2 paths, depth 2 quick / 3 thorough) from 6 initial file states against a reference model of the documented rules, with at-rest, keyring and mode checks after every call; C: 2..3 threads calling constructors on one path under the controlled scheduler, every schedule up to a preemption bound; B: a scripted history with planted canaries on an encrypted database (messages, a 32/57 KB message (NIP-44 caps a payload at 64 KB), commit race with rollback, own commit), every file of the database and temp directories scanned for 16+ needles after every call, at every storage tick inside every call, and after a process death at every storage tick; states = sequences + configurations + calls, evaluations = constructor calls + schedules + scans; distinct = distinct (constructor, file state, keyring state) cells and crash points".into(); c13::matrix(&mut rep, if tier == "quick" { 2 } else { 3 }, 0o022); for um in [0o007u32, 0o027, 0o077, 0o000] { c13::matrix(&mut rep, if tier == "quick" && um != 0o007 { 1 } else { 2 }, um); } c13::matrix_odd_names(&mut rep, if tier == "quick" { 1 } else { 2 }); c13::concurrent_opens(&mut rep, tier != "quick"); c13::at_rest(&mut rep, tier != "quick"); rep.finish() }
                 "C14" => c14(tier),
                 "C15" => { let mut rep = Report::new("C15", tier, "exploration"); rep.rule = "group-data extension: every value of name/description {empty, ASCII, 2-, 3-, 4-byte UTF-8, NUL inside, 255 B} x 0..3 admins x 4 relay sets x 16 presence patterns of the image fields x versions {1,2,3,65535} round-trips; every prefix truncation, appended suffix, wrong fixed length, version 0, invalid UTF-8 / URL is refused; key-package events, welcome rumors, imeta tags: round trip through the public create/parse pair and every single-field mutation refused; distinct = distinct (family, shape)".into(); shapes::check_c15(&mut rep, tier != "quick"); rep.finish() }
                 "C16" => c16check(tier),
